@@ -719,6 +719,34 @@ def check_helpers(case, ctx):
             ctx.fail("mu.calc_fisher_matrix_total", f"in-domain input raised ValueError: {e}")
         else:
             ctx.close(got_tot, tot, 1e-11 * (1 + float(np.max(np.abs(tot)))), "mu.calc_fisher_matrix_total")
+        # exact zeros and a caller-chosen eps: the documented replacement (entries below eps become eps, the others give up
+        # that mass in equal shares) is applied with THAT eps, per schedule, in the total as well
+        if "zero" in case:
+            eps_arg = case.get("eps")
+            e_eff = 1e-8 if eps_arg is None else float(eps_arg)
+
+            def zeroed(q, mask):
+                q = np.where(np.asarray(mask[: len(q)], dtype=bool), 0.0, q)
+                return q / q.sum()
+
+            def replaced(q):
+                small = q < e_eff
+                cnt = int(np.count_nonzero(small))
+                return np.where(small, e_eff, q - e_eff * cnt / (len(q) - cnt))
+
+            pz, pz2 = zeroed(p, case["zero"]), zeroed(p2, case["zero"][::-1][1:] + [False])
+            rz, rz2 = replaced(pz), replaced(pz2)
+            fz = sum(np.outer(g[x], g[x]) / rz[x] for x in range(k))
+            fz2 = sum(np.outer(g2[x], g2[x]) / rz2[x] for x in range(k))
+            kw = {} if eps_arg is None else {"eps": e_eff}
+            n_zero = int(np.count_nonzero(pz == 0) + np.count_nonzero(pz2 == 0))
+            ctx.label("fisher:zero-probability" if n_zero else "fisher:no-zero",
+                      "fisher:eps-default" if eps_arg is None else f"fisher:eps={e_eff:g}")
+            ctx.close(mu.calc_fisher_matrix(pz, g, **kw), fz, 1e-10 * (1 + float(np.max(np.abs(fz)))),
+                      "mu.calc_fisher_matrix:zero_probability_with_eps")
+            totz = w[0] * fz + w[1] * fz2
+            ctx.close(mu.calc_fisher_matrix_total([pz, pz2], [g, g2], w, **kw), totz,
+                      1e-10 * (1 + float(np.max(np.abs(totz)))), "mu.calc_fisher_matrix_total:zero_probability_with_eps")
         # documented rejections
         bad = p.copy()
         bad[0] -= 0.5
@@ -986,6 +1014,9 @@ def helper_case(draw, tier):
         c["grad"] = [draw(gen.raw(nv, -2, 2)) for _ in range(k)]
         c["grad2"] = [draw(gen.raw(nv, -2, 2)) for _ in range(k)]
         c["weights"] = [draw(st.floats(0, 5)), draw(st.floats(0, 5))]
+        # outcomes of probability exactly zero (a pure state measured in its eigenbasis) with the caller's own eps
+        c["zero"] = [draw(st.booleans()) and draw(st.booleans()) for _ in range(k - 1)] + [False]
+        c["eps"] = draw(st.sampled_from([None, None, 1e-8, 1e-6, 1e-4, 1e-10]))
     elif kind == "replace":
         k = draw(st.integers(2, 6))
         eps = draw(st.sampled_from([1e-8, 1e-8, 1e-6, 1e-10]))
